@@ -21,6 +21,10 @@ import (
 func init() { register("C06", runC06) }
 
 func runC06(c *core.Ctx) {
+	if c.Index%100 == 42 {
+		c06big(c)
+		return
+	}
 	if c.Index%2 == 0 {
 		c06list(c)
 	} else {
@@ -508,8 +512,27 @@ func c06ring(c *core.Ctx) {
 				return false
 			}
 			var dg, ds []int
-			h.g.Do(func(v int) { dg = append(dg, v) })
+			// one Do in four: a callback that itself walks the ring (Len, a nested Do, Move)
+			nestAt, nestBad := -1, ""
+			if r.Chance(1, 4) {
+				nestAt = r.Intn(h.s.Len())
+			}
+			h.g.Do(func(v int) {
+				if len(dg) == nestAt {
+					inner := 0
+					h.g.Do(func(int) { inner++ })
+					if inner != h.s.Len() || h.g.Len() != h.s.Len() || idG(h.g.Move(3)) != idS(h.s.Move(3)) {
+						nestBad = fmt.Sprintf("nested Do made %d calls, nested Len()=%d, container/ring Len %d", inner, h.g.Len(), h.s.Len())
+					}
+					c.Count("nested_calls_in_do_callback", 1)
+				}
+				dg = append(dg, v)
+			})
 			h.s.Do(func(v any) { ds = append(ds, v.(int)) })
+			if nestBad != "" {
+				fail(op+":Do-nested", fmt.Sprintf("after %s, inside the Do callback from element %d: %s", op, id, nestBad))
+				return false
+			}
 			if !eqSlice(dg, ds) {
 				fail(op+":Do", fmt.Sprintf("after %s Do from element %d visits %v, container/ring %v", op, id, dg, ds))
 				return false
@@ -707,4 +730,211 @@ func stripDigits(s string) string {
 		out = append(out, s[i])
 	}
 	return string(out)
+}
+
+// c06big: one list and one ring with 1100..2600 elements, built by a mix of calls,
+// walked in both directions, then emptied element by element and used again - sizes
+// at which a fork with its own bookkeeping (cached lengths, index tables, free
+// lists) changes behaviour, compared with the standard library all the way.
+func c06big(c *core.Ctx) {
+	r := c.R
+	n := r.Range(1100, 2600)
+	var phase string
+	fail := func(sig, msg string) {
+		c.Violate("big:"+sig, fmt.Sprintf("%s [%d elements, phase %s]", msg, n, phase), nil)
+	}
+	g, s := new(lists.List[int]), new(list.List)
+	var es []eh
+	same := func() bool {
+		if g.Len() != s.Len() {
+			fail("List.Len", fmt.Sprintf("Len()=%d, container/list %d", g.Len(), s.Len()))
+			return false
+		}
+		eg, esd := g.Front(), s.Front()
+		for i := 0; esd != nil; i++ {
+			if eg == nil || eg.Value != esd.Value.(int) {
+				fail("List.forward", fmt.Sprintf("forward traversal differs at position %d", i))
+				return false
+			}
+			eg, esd = eg.Next(), esd.Next()
+		}
+		if eg != nil {
+			fail("List.forward", "forward traversal is longer than container/list's")
+			return false
+		}
+		eg, esd = g.Back(), s.Back()
+		for i := 0; esd != nil; i++ {
+			if eg == nil || eg.Value != esd.Value.(int) {
+				fail("List.backward", fmt.Sprintf("backward traversal differs at position %d from the back", i))
+				return false
+			}
+			eg, esd = eg.Prev(), esd.Prev()
+		}
+		if eg != nil {
+			fail("List.backward", "backward traversal is longer than container/list's")
+			return false
+		}
+		return true
+	}
+	phase = "fill"
+	for i := 0; i < n; i++ {
+		var e eh
+		switch k := r.Intn(4); {
+		case k == 0 || len(es) == 0:
+			e = eh{g.PushBack(i), s.PushBack(i)}
+		case k == 1:
+			e = eh{g.PushFront(i), s.PushFront(i)}
+		case k == 2:
+			at := es[r.Intn(len(es))]
+			e = eh{g.InsertAfter(i, at.g), s.InsertAfter(i, at.s)}
+		default:
+			at := es[r.Intn(len(es))]
+			e = eh{g.InsertBefore(i, at.g), s.InsertBefore(i, at.s)}
+		}
+		if (e.g == nil) != (e.s == nil) {
+			fail("List.insert", fmt.Sprintf("insertion %d returned nil in one library only", i))
+			return
+		}
+		es = append(es, e)
+		if i%512 == 511 && !same() {
+			return
+		}
+	}
+	if !same() {
+		return
+	}
+	phase = "moves"
+	for i := 0; i < 200; i++ {
+		a, b := es[r.Intn(len(es))], es[r.Intn(len(es))]
+		switch r.Intn(4) {
+		case 0:
+			g.MoveToFront(a.g)
+			s.MoveToFront(a.s)
+		case 1:
+			g.MoveToBack(a.g)
+			s.MoveToBack(a.s)
+		case 2:
+			g.MoveBefore(a.g, b.g)
+			s.MoveBefore(a.s, b.s)
+		case 3:
+			g.MoveAfter(a.g, b.g)
+			s.MoveAfter(a.s, b.s)
+		}
+	}
+	if !same() {
+		return
+	}
+	phase = "drain"
+	for _, i := range r.Perm(len(es)) {
+		e := es[i]
+		switch r.Intn(3) {
+		case 0:
+			e = eh{g.Front(), s.Front()}
+		case 1:
+			e = eh{g.Back(), s.Back()}
+		}
+		if e.g == nil || e.s == nil {
+			break // already removed through Front/Back: Remove of a removed element is a no-op in both
+		}
+		vg, vs := g.Remove(e.g), s.Remove(e.s)
+		if vg != vs.(int) {
+			fail("List.Remove", fmt.Sprintf("Remove returned %d, container/list %v", vg, vs))
+			return
+		}
+		if g.Len()%256 == 0 && !same() {
+			return
+		}
+	}
+	for s.Len() > 0 {
+		if g.Front() == nil {
+			fail("List.Front", "Front() is nil although container/list still has elements")
+			return
+		}
+		if vg, vs := g.Remove(g.Front()), s.Remove(s.Front()); vg != vs.(int) {
+			fail("List.Remove", fmt.Sprintf("Remove(Front) returned %d, container/list %v", vg, vs))
+			return
+		}
+	}
+	if !same() {
+		return
+	}
+	phase = "reuse"
+	for i := 0; i < 10; i++ {
+		if r.Bool() {
+			g.PushBack(-i)
+			s.PushBack(-i)
+		} else {
+			g.PushFront(-i)
+			s.PushFront(-i)
+		}
+		if !same() {
+			return
+		}
+	}
+	// ring: n elements linked from pieces, walked, unlinked in laps down to one, re-linked
+	phase = "ring"
+	rg, rs := lists.NewRing[int](1), ring.New(1)
+	rg.Value, rs.Value = 0, 0
+	for built := 1; built < n; {
+		k := r.Range(1, 300)
+		pg, ps := lists.NewRing[int](k), ring.New(k)
+		for j := 0; j < k; j++ {
+			pg.Value, ps.Value = built+j, built+j
+			pg, ps = pg.Next(), ps.Next()
+		}
+		rg.Link(pg)
+		rs.Link(ps)
+		built += k
+		if r.Bool() {
+			m := r.Range(-400, 400)
+			rg, rs = rg.Move(m), rs.Move(m)
+		}
+	}
+	sameRing := func() bool {
+		if rg.Len() != rs.Len() {
+			fail("Ring.Len", fmt.Sprintf("Len()=%d, container/ring %d", rg.Len(), rs.Len()))
+			return false
+		}
+		var a, b []int
+		rg.Do(func(v int) { a = append(a, v) })
+		rs.Do(func(v any) { b = append(b, v.(int)) })
+		if !eqSlice(a, b) {
+			fail("Ring.Do", "Do visits other values than container/ring")
+			return false
+		}
+		pg, ps := rg, rs
+		for i := 0; i < len(b); i++ {
+			pg, ps = pg.Prev(), ps.Prev()
+			if pg.Value != ps.Value.(int) {
+				fail("Ring.Prev", fmt.Sprintf("backward walk differs after %d steps", i+1))
+				return false
+			}
+		}
+		return true
+	}
+	if !sameRing() {
+		return
+	}
+	for rs.Len() > 1 {
+		k := r.Range(1, 400)
+		ug, us := rg.Unlink(k), rs.Unlink(k)
+		if (ug == nil) != (us == nil) || (us != nil && (ug.Len() != us.Len() || ug.Value != us.Value.(int))) {
+			fail("Ring.Unlink", fmt.Sprintf("Unlink(%d) on a ring of %d returned another sub-ring than container/ring", k, rs.Len()))
+			return
+		}
+		if !sameRing() {
+			return
+		}
+		m := r.Range(-50, 50)
+		rg, rs = rg.Move(m), rs.Move(m)
+	}
+	rg.Link(lists.NewRing[int](5))
+	rs.Link(ring.New(5))
+	if rg.Len() != rs.Len() {
+		fail("Ring.Len", "Len differs after re-linking the shrunk ring")
+		return
+	}
+	c.Count("big_list_and_ring_cases", 1)
+	c.Max("max_list_or_ring_elements", int64(n))
+	c.NonTrivial(core.Mix(c.Seed, uint64(n), 6))
 }
